@@ -22,7 +22,7 @@ DOUBLES = [0.0, 0.5, -0.5, 64.0, 1e6 + 0.125, -3e7, 255.999, 1e-3]
 UUID0 = '0f1e2d3c4b5a69788796a5b4c3d2e1f0'
 
 
-def gen_history(rng, ids, n):
+def gen_history(rng, ids, n, T=None):
     later = ids['later']
     known = set(ids['cb.play.known'])
     items = []
@@ -44,9 +44,13 @@ def gen_history(rng, ids, n):
             tid += 1
         elif k < 0.75:
             uid = rng.choice([i for i in range(0x80) if i not in known])
+            sizes = [0, 1, 9, 100]
+            if T is not None and T >= 2:
+                # whole packet (1-byte id + body) of exactly T-1, T, T+1
+                # bytes: a vanilla server compresses from size >= T on
+                sizes += [T - 2, T - 1, T - 1, T]
             items.append(['unknown', uid, bytes(
-                rng.randrange(256) for _ in range(rng.choice(
-                    [0, 1, 9, 100]))).hex()])
+                rng.randrange(256) for _ in range(rng.choice(sizes))).hex()])
         elif k < 0.85:
             items.append(['chat', '{"text":"c%d"}' % rng.randrange(1000),
                           rng.choice([0, 1, 2]), UUID0])
@@ -73,10 +77,11 @@ def scenario_for(seed, index, tier):
     kick = rng.random() < 0.25
     if kick:
         n = rng.choice([1, 3, 10, 30, 40])
-    hist = gen_history(rng, ids, n)
+    # 9 / 2..3: the size of a Long / small VarInt keep-alive packet itself
+    compress = rng.choice([None, None, None, 0, 0, 64, 256, 9, 2, 3])
+    hist = gen_history(rng, ids, n, compress)
     if kick:
         hist = [it for it in hist if it[0] != 'pause' or it[1] < 1000000]
-    compress = rng.choice([None, None, 0, 64, 256])
     user_packets = 0 if kick else rng.choice([0, 0, 0, 5, 320, 650])
     login = ([['compress', compress]] if compress is not None else []) + \
         [['success']]
